@@ -21,6 +21,7 @@ import (
 	"sort"
 	"strconv"
 	"strings"
+	"sync"
 
 	"github.com/getkin/kin-openapi/openapi3"
 	"github.com/sirupsen/logrus"
@@ -80,7 +81,11 @@ func (o *OpenAPI3Importer) Configure(arg *ImporterArg) (Importer, error) {
 	return o, nil
 }
 
+// kin-openapi rejects a schema reference met 3 times on one path, which recursive schemas are (in some map orders).
+var raiseCircularReferenceCounter sync.Once
+
 func NewOpenAPI3Loader(logger *logrus.Logger, fs afero.Fs) *openapi3.Loader {
+	raiseCircularReferenceCounter.Do(func() { openapi3.CircularReferenceCounter = 1000 })
 	loader := openapi3.NewLoader()
 	loader.IsExternalRefsAllowed = true
 	loader.ReadFromURIFunc = func(
